@@ -370,4 +370,7 @@ func runC16(r *hk.Run) {
 	runCanon(r, rng.Fork())
 	runE2E(r, rng.Fork())
 	runSequences(r, rng.Fork())
+	runResends(r, rng.Fork())
+	runWriterInterleavings(r, rng.Fork())
+	runBursts(r, rng.Fork())
 }
